@@ -908,13 +908,16 @@ func (t *TreeOut) checkGas() {
 		}
 		preOut := lastAspOut(f, actypes.JoinPointRunType_PreContractCall)
 		postOut := lastAspOut(f, actypes.JoinPointRunType_PostContractCall)
-		if preOut != nil && preOut.Err == "" && len(f.Steps) > 0 {
-			if f.Steps[0].Gas != preOut.Gas {
-				t.add("C06", "C06.pre", "callee-start-gas", f.Steps[0].Seq, "pre join point left %d gas but the callee's first instruction sees %d", preOut.Gas, f.Steps[0].Gas)
+		if preOut != nil && preOut.Err == "" && f.First != nil {
+			if f.First.Gas != preOut.Gas {
+				t.add("C06", "C06.pre", "callee-start-gas", f.First.Seq, "pre join point left %d gas but the callee's first instruction sees %d", preOut.Gas, f.First.Gas)
+			}
+			if preOut.Gas == 0 {
+				t.L.Probe("pre-join-point-left-exactly-zero-gas")
 			}
 		}
-		if preOut == nil && len(f.Steps) > 0 && len(f.Prov) > 0 && f.Steps[0].Gas != f.Gas {
-			t.add("C06", "C06.pre", "callee-start-gas-nobind", f.Steps[0].Seq, "nothing bound, call given %d gas but the callee's first instruction sees %d", f.Gas, f.Steps[0].Gas)
+		if preOut == nil && f.First != nil && len(f.Prov) > 0 && f.First.Gas != f.Gas {
+			t.add("C06", "C06.pre", "callee-start-gas-nobind", f.First.Seq, "nothing bound, call given %d gas but the callee's first instruction sees %d", f.Gas, f.First.Gas)
 		}
 		if preOut != nil && preOut.Err != "" {
 			if preOut.Err == "out of gas" {
